@@ -3,6 +3,8 @@ import XzVerif.Proofs.Writer2F
 import XzVerif.Proofs.XzWF
 import XzVerif.Proofs.HashTable
 import XzVerif.Proofs.BinTree
+import XzVerif.Proofs.Writer1F
+import XzVerif.Proofs.Writer1I
 /-
   C09 — I/O failures are never masked.
 
@@ -217,5 +219,82 @@ theorem C09_xzwriter_success_only_with_valid_stream {σ : Type} (strict : Bool) 
 example : ((W2F.run { props := ⟨3, 0, 2⟩, dictCap := 4096, bufSize := 4096 } W2.Script (W2F.planOf 1 0)
     (W2F.init { props := ⟨3, 0, 2⟩, dictCap := 4096, bufSize := 4096 } [W2.GoOp.lit 1])
     [.write ⟨#[1]⟩, .close]).1.hit = true) := by decide +kernel
+
+/-! ### the classic .lzma writer on a failing sink (Model/Writer1F.lean, tied to the real lzma.Writer under fault injection)
+
+  Sinks: a plain `io.Writer` behind bufio's 4096-byte buffer, or an `io.ByteWriter` reached byte by byte; ANY fault plan;
+  histories `Write* Close`.  Until the first fault strikes the model is `Model.Writer1` itself (proved), the fault is
+  reported by the call in which it strikes, and success of all calls means the sink holds a complete stream that the
+  classic reader decodes to the accepted bytes.  What a half-encoded operation leaves behind is not modelled: later
+  calls are only known to fail at `Close` (plain sink, bufio's stored error); that they never panic is searched, not
+  proved. -/
+
+open W1 W2 W2F in
+theorem C09_lzma_writer_no_fault_no_difference {σ : Type} (c : W1.Cfg) (M : Matcher σ) (k : W1F.Kind) (F : Plan) (m0 : σ)
+    (ws : List ByteArray) (hF : ∀ i, F i = none) :
+    (W1F.new c k F m0).2 = true ∧
+    ((W1F.run c M k F (W1F.new c k F m0).1 (W1F.hist ws)).2.map (·.1)).length =
+      ((W1.run c M (W1.init c m0) (W1F.hist ws)).1).length ∧
+    (∀ (i : Nat) (r : W1F.Res), ((W1F.run c M k F (W1F.new c k F m0).1 (W1F.hist ws)).2.map (·.1))[i]? = some r →
+        ∃ (n : Nat) (e : Option W1.Err), r = W1F.Res.done n e ∧
+          ((W1.run c M (W1.init c m0) (W1F.hist ws)).1)[i]? = some (n, e)) ∧
+    (∀ out, (W1.run c M (W1.init c m0) (W1F.hist ws)).2 = some out →
+        (W1F.run c M k F (W1F.new c k F m0).1 (W1F.hist ws)).1.sunk = out) :=
+  W1F.no_fault_is_plain c M k F m0 ws hF
+
+open W1 W2 W2F in
+theorem C09_lzma_writer_failure_never_masked {σ : Type} (c : W1.Cfg) (M : Matcher σ) (k : W1F.Kind) (F : Plan) (m0 : σ)
+    (calls : List W1.Call) (hnew : (W1F.new c k F m0).2 = true)
+    (hf : (W1F.run c M k F (W1F.new c k F m0).1 calls).1.failed = true) :
+    ∃ r ∈ (W1F.run c M k F (W1F.new c k F m0).1 calls).2, r.1.isSink = true :=
+  W1F.fault_is_reported c M k F m0 calls hnew hf
+
+open W1 W2 W2F in
+/-- plain sink: bufio keeps the error — after the failing call no Close reports success, the sink is not called again -/
+theorem C09_lzma_writer_close_after_failure {σ : Type} (c : W1.Cfg) (M : Matcher σ) (F : Plan) (s : W1F.FSt σ)
+    (calls : List W1.Call) (hs : s.failed = true) :
+    (∀ r ∈ (W1F.run c M .plain F s calls).2, r.1.isNil = false) ∧
+    (W1F.run c M .plain F s calls).1.calls = s.calls ∧ (W1F.run c M .plain F s calls).1.sunk = s.sunk :=
+  W1F.plain_close_after_fault c M F s calls hs
+
+open W1 W2 W2F in
+/-- **success is reported only when the sink accepted a complete valid stream** (HashTable4 model; every valid
+    configuration, every partition, both sink kinds, EVERY fault plan): if NewWriter and all calls of `Write* Close`
+    return nil, the classic reader decodes what the sink holds, with a clean end, to the bytes the writer accepted -/
+theorem C09_lzma_writer_success_only_with_valid_stream (c : W1.Cfg) (hc : W1.CfgOk c) (k : W1F.Kind) (F : Plan)
+    (ws : List ByteArray) (cfgCap : Nat)
+    (hnew : (W1F.new c k F (HT.St.new c.w2.dictCap c.w2.bufSize)).2 = true)
+    (hall : ∀ r ∈ (W1F.run c HT.HT4 k F (W1F.new c k F (HT.St.new c.w2.dictCap c.w2.bufSize)).1 (W1F.hist ws)).2,
+      r.1.isNil = true) :
+    let sunk := (W1F.run c HT.HT4 k F (W1F.new c k F (HT.St.new c.w2.dictCap c.w2.bufSize)).1 (W1F.hist ws)).1.sunk
+    (Lzma1.read cfgCap sunk).status = .eof ∧ (Lzma1.read cfgCap sunk).out = W1.acceptedData c.size 0 ws := by
+  intro sunk
+  obtain ⟨out, hout, hsunk, _⟩ := W1F.all_nil_complete_stream c HT.HT4 k F _ ws hnew hall
+  have hrt := W1.closes_I c hc HT.HT4 (HT.Synced c.w2) (W2.matcherInv' (HT.ht4_matcherInv c.w2)) _ (HT.synced_new c.w2) ws cfgCap
+  have hsz : (match c.size with
+      | some sz => (W1.acceptedData c.size 0 ws).size = sz
+      | none => True) := by
+    by_contra hne
+    have hbad : (match c.size with
+        | some sz => (W1.acceptedData c.size 0 ws).size ≠ sz
+        | none => False) := by
+      cases hcs : c.size with
+      | none => simp [hcs] at hne
+      | some sz => simpa [hcs] using hne
+    have := (hrt.1 hbad).2
+    unfold W1F.hist at hout
+    rw [this] at hout
+    exact absurd hout (by simp)
+  obtain ⟨_, o, ho, _, hst, hres, _⟩ := hrt.2 hsz
+  unfold W1F.hist at hout
+  rw [ho] at hout
+  have : o = out := Option.some.inj hout
+  show (Lzma1.read cfgCap sunk).status = .eof ∧ _
+  rw [show sunk = out from hsunk, ← this]
+  exact ⟨hst, hres⟩
+
+/-- non-vacuity: the never-failing plan is a plan, and `hist` of one write is `Write Close` -/
+example : W1F.hist [⟨#[1, 2, 3]⟩] = [.write ⟨#[1, 2, 3]⟩, .close] := rfl
+
 
 end Props.C09
